@@ -465,8 +465,10 @@ let run_iter (src : string) : string =
       let after = String.concat ";" [ strs (M.iter_identifiers n5); strs (M.iter_variable_identifiers n5); strs (M.iter_read_variable_identifiers n5);
                                       strs (M.iter_write_variable_identifiers n5); strs (M.iter_function_identifiers n5) ] in
       Printf.sprintf
-        "OK ids[%s] vars[%s] reads[%s] writes[%s] fns[%s] nodes[%s] ops[%s] idsm[%s] varsm[%s] readsm[%s] writesm[%s] fnsm[%s] via<%s> adapt<%s> free<%s> mid<%s> after<%s> renamed%s"
-        a b c d e nodes opsm am bm cm dm em others adapt free mid after (tree_text n5)
+        "OK ids[%s] vars[%s] reads[%s] writes[%s] fns[%s] nodes[%s] ops[%s] idsm[%s] varsm[%s] readsm[%s] writesm[%s] fnsm[%s] via<%s> adapt<%s> free<%s> mid<%s> after<%s> free2<%s> renamed%s"
+        a b c d e nodes opsm am bm cm dm em others adapt free mid after
+        (let (r, _), _ = M.eval_mut oracle n5 M.empty_hashmap [] in outcome_text value_text r)
+        (tree_text n5)
 
 let fmt_oracle : M.fmt_oracle =
   { M.fo_float_display = (fun x -> str_of_hex (oracle_ask ("fts " ^ float_hex x)));
